@@ -547,6 +547,9 @@ fn main() {
     out.set("events", J::U(ag.events));
     out.set("distinct_histories", J::U(ag.hist_sigs.len() as u64));
     out.set("distinct_nontrivial_histories", J::U(ag.nontrivial_sigs.len() as u64));
+    if ag.nontrivial_sigs.len() <= 30000 {
+        out.set("nontrivial_sigs", J::A(ag.nontrivial_sigs.iter().map(|h| J::U(*h >> 12)).collect()));
+    }
     out.set("distinct_outcome_vectors", J::U(ag.outcome_sigs.len() as u64));
     out.set("distinct_failpoint_orders", J::U(ag.trace_sigs.len() as u64));
     out.set("blocked_ops", J::U(ag.blocked_ops));
